@@ -50,11 +50,10 @@ def run_scenarios(ctx, scenarios, name, shards=None):
     for k in range(shards):
         out = ctx.path("trace-%s-%d.ndjson" % (name, k))
         files.append(out)
-        procs.append(subprocess.Popen([drv, "chartree", "-seed", str(ctx.seed), "-scen", scen, "-out", out, "-shard", str(k), "-shards", str(shards)],
-                                      cwd=ctx.scratch, env=ctx.env, stdout=subprocess.PIPE, stderr=subprocess.PIPE, text=True))
+        procs.append(ctx.spawn([drv, "chartree", "-seed", str(ctx.seed), "-scen", scen, "-out", out, "-shard", str(k), "-shards", str(shards)]))
     cells = leaves = 0
     for p in procs:
-        o, e = p.communicate(timeout=3000)
+        rc_, o, e = ctx.wait(p)
         if p.returncode == 5:
             ctx.partial = "a library call did not return within the per-recipe deadline; the rest of that shard was skipped"
             try:
